@@ -169,11 +169,11 @@ def pSetting : String → Option Setting
 
 /-- `c12set <supported> <settings>` → `force=… h3=… allow=… dial=…` after the setters, from `T()`
 (`allow=?` once a clone occurred: whether Clone carries `t2.AllowHTTP` is C19's subject). -/
-def laneSet : List String → String
+def laneSetWith (ap : Bool → Cfg → Setting → Cfg) : List String → String
   | [sup, ss] =>
     match pBool sup, (if ss == "-" then some [] else (ss.splitOn ",").mapM pSetting) with
     | some sup, some l =>
-      let c := l.foldl (applySetting sup) initialProto
+      let c := l.foldl (ap sup) initialProto
       let f := match c.force with | none => "-" | some .h1 => "1" | some .h2 => "2" | some .h3 => "3"
       let b := fun (x : Bool) => if x then "1" else "0"
       let allow := if l.contains .clone then "?" else b c.allowHTTP
@@ -181,8 +181,13 @@ def laneSet : List String → String
     | _, _ => "bad-op"
   | _ => "bad-op"
 
+def laneSet := laneSetWith applySetting
+/-- the un-patched `DisableHTTP3` (used only to recognise the known finding exactly) -/
+def laneSetU := laneSetWith applySettingUnpatched
+
 def lanes : List (String × (List String → String)) := [
   ("c12set", laneSet),
+  ("c12setu", laneSetU),
   ("c12route", laneRoute),
   ("c12routeu", laneRouteU),
   ("c12cfg", laneCfg)
